@@ -77,6 +77,7 @@ PINS["traced tuples, lists and dicts compare by value"] = ("C06", ["regress/C06/
 PINS["concat (NumPy 2"] = ("C15", ["regress/C15/concat-alias-rev.json", "regress/C15/concat-alias-fwd.json"])
 PINS["const_graph keeps its function until a recording call has succeeded"] = ("C19", ["regress/C19/recorded-graph-first-call-fails.json"])
 PINS["signbit, isin, digitize, lexsort, nanargmax"] = ("C14", ["regress/C14/signbit-is-not-differentiable.json", "regress/C14/isin-is-not-differentiable.json", "regress/C14/isrealobj-is-a-type-query.json"])
+PINS["ArrayVSpace.scalar_mul stays in its space"] = ("C13", ["regress/C13/scalar-mul-float32-array.json", "regress/C13/scalar-mul-complex64.json"])
 PINS["rfft/irfft family VJPs resolve an entry -1"] = ("C01", ["regress/C01/rfftn-s-minus-one.json"])
 PINS["transform the cotangent with the resolved lengths"] = ("C01", ["regress/C01/rfft2-s-last-minus-one.json"])
 PINS["applies to floating-point inputs only"] = ("C15", ["regress/C15/int-stack-forward-tangent.json"])
